@@ -24,9 +24,9 @@ func (c14) Assumptions() []string {
 
 func (c14) Gen(tier string, seed int64) []fw.Unit {
 	r := rngFor(seed, "C14")
-	n := 24
+	n := 80
 	if tier == "thorough" {
-		n = 240
+		n = 800
 	}
 	var us []fw.Unit
 	for i := 0; i < n; i++ {
@@ -34,6 +34,7 @@ func (c14) Gen(tier string, seed int64) []fw.Unit {
 		us = append(us, fw.U("cs.c128", nil, "code128", r.Int63(), 300))
 		us = append(us, fw.U("cs.c39", nil, "code39", r.Int63(), 300))
 	}
+	us = append(us, fw.U("cs.c128long", nil, "code128", r.Int63()))
 	us = append(us, fw.U("cs.c39exh", nil, "code39", 0))
 	us = append(us, fw.U("cs.c39exh", nil, "code39", 1))
 	return us
@@ -173,6 +174,18 @@ func (p c14) Exec(c *fw.Ctx, u *fw.Unit) {
 				rs[j] = c128Rep(r, r.Intn(c128Classes))
 			}
 			p.one(c, Req{Fam: "code128", S: []byte(string(rs)), Scheme: -1}, r)
+		}
+	case "cs.c128long":
+		// long contents incl. those that switch code set at every rune (largest weights)
+		r := rngFor(u.Int(0), "csc128long")
+		for n := 40; n <= 80; n++ {
+			for _, pr := range [][2]int{{2, 3}, {2, 2}, {1, 1}, {0, 0}, {3, 2}, {5, 2}} {
+				rs := make([]rune, n)
+				for j := range rs {
+					rs[j] = c128Rep(r, pr[j%2])
+				}
+				p.one(c, Req{Fam: "code128", S: []byte(string(rs)), Scheme: -1}, r)
+			}
 		}
 	case "cs.c39":
 		r := rngFor(u.Int(0), "csc39")
